@@ -334,6 +334,9 @@ def run(prop, tier, seed):
     fuzz_and_validate(prop, tier, seed, verdict, cov)
     spec_replay(prop, tier, seed, verdict, cov)
     real_clients(prop, tier, seed, verdict, cov)
+    if prop in ("C02", "C04"):
+        import client_checks
+        client_checks.api_model(prop, tier, seed, verdict, cov)
     if prop == "C12":
         handshake(prop, tier, seed, verdict, cov)
         client_versions(prop, tier, seed, verdict, cov)
@@ -356,6 +359,7 @@ def run(prop, tier, seed):
         known_findings_reobserved=verdict.known,
         other_property_notes=verdict.notes[:10],
         spec_to_impl_replay=cov.get("replay", {}),
+        api_level_replay=cov.get("api_replay", {}),
     )
     if have_mc:
         coverage.update(states=cov["states"], transitions=cov["transitions"], mc=cov.get("mc", []))
@@ -423,6 +427,9 @@ def replay(prop, path, seed):
         recs = vlib.read_ndjson(out)
         judge(prop, recs, res2, "spec-replay", ["--in", bfile, "--out", out, "--seed", seed], "stored behaviour", verdict)
         log(f"re-run of the stored behaviour on the current tree: {verdict.violations} violation(s) of {prop}")
+    elif data.get("kind") == "api-replay":
+        import client_checks
+        return client_checks.replay(prop, path, seed)
     elif data.get("kind") == "handshake":
         path = os.path.join(wd, "handshake.ndjson")
         vlib.run_driver("handshake", [path, seed])
